@@ -701,6 +701,8 @@ class Interp:
                 return self.apply_fn(body, args)
             if f.get('res', '').startswith('Ctor'):
                 return ('ctor', p, tuple(args))
+            if f.get('res', '') == 'SelfCtor' and e.get('t'):
+                return ('ctor', (e.get('t') or '').split('<')[0], tuple(args))         # `Self(..)` of a tuple struct
             if seg == 'from' and len(args) == 1:
                 return args[0]
             if p.split('::<')[0] == 'alloc::vec::Vec' and seg in ('new', 'with_capacity'):
@@ -1100,6 +1102,8 @@ class Interp:
                 return base[2][e['name']]
             if isinstance(base, tuple) and len(base) == 3 and base[0] == 'range' and e.get('name') in ('start', 'end') and isinstance(base[1 if e['name'] == 'start' else 2], int):
                 return base[1] if e['name'] == 'start' else base[2] + 1          # ranges are kept with an inclusive end
+            if isinstance(base, tuple) and len(base) == 3 and base[0] == 'ctor' and isinstance(base[2], tuple) and str(e.get('name')).isdigit() and int(e['name']) < len(base[2]):
+                return base[2][int(e['name'])]          # `.0` of a tuple struct / tuple variant value
             if isinstance(base, tuple) and base and base[0] != 'struct' and str(e.get('name')).isdigit() and int(e['name']) < len(base):
                 return base[int(e['name'])]
             raise Unanalysable(f'field `{e.get("name")}` of a value the evaluator does not model')
